@@ -7,7 +7,7 @@
 set -u
 N=$1; shift
 D=/verif/seeded/$N
-P=$(python3 -c "import json;print(json.load(open('$D/meta.json'))['property'])")
+P=${SEED_PROP:-$(python3 -c "import json;print(json.load(open('$D/meta.json'))['property'])")}
 W=$(mktemp -d /var/tmp/seed.XXXXXX)
 rmdir $W
 git -C /repo worktree add -q --detach $W HEAD || exit 9
